@@ -593,23 +593,35 @@ Proof.
 Qed.
 
 (* ---------------------------------------------------------------- path spelling ------------- *)
-(* a `from` in filepath.Clean form: the root and every entry get their relative name *)
-Lemma rel_of_clean from rel : rel_of from (from ++ rel) = Some rel.
+Lemma rel_of_app from rel : rel_of from (from ++ rel) = Some rel.
 Proof.
   unfold rel_of. rewrite app_length.
   replace (Nat.leb (length from) (length from + length rel)) with true by (symmetry; apply Nat.leb_le; lia).
   f_equal. induction from as [|x r IH]; [reflexivity | exact IH].
 Qed.
 
-(* a directory `from` whose cleaned form is shorter (a//b, a/./b, a/, ./a, a/x/../b): the first
-   callback - the root - slices out of range *)
-Theorem unclean_from_panics from cleaned :
-  length cleaned < length from -> walk_panics from cleaned true = true.
+(* the code as it is: the directory branch cleans `from` first (read from the regenerated program) *)
+Lemma cleans_first_ok : cleans_first = true.
+Proof. reflexivity. Qed.
+
+(* HOWEVER `from` is spelled: every name the walk reports (the cleaned root followed by anything)
+   yields exactly its path relative to the root - the copy of an unclean path is the copy of its
+   Clean form *)
+Theorem rel_of_any_spelling from cleaned rel :
+  rel_of (prefix_stripped from cleaned) (cleaned ++ rel) = Some rel.
+Proof. unfold prefix_stripped. rewrite cleans_first_ok. apply rel_of_app. Qed.
+
+Theorem never_panics from cleaned isdir : walk_panics from cleaned isdir = false.
 Proof.
-  intros H. unfold walk_panics, rel_of.
+  unfold walk_panics. rewrite <- (app_nil_r cleaned) at 2. rewrite rel_of_any_spelling. apply andb_false_r.
+Qed.
+
+(* what the cleaning prevents (the finding, fixed in /repo): stripping the prefix as spelled from the
+   cleaned, shorter root name is a slice out of range *)
+Theorem unclean_prefix_would_panic from cleaned :
+  length cleaned < length from -> rel_of from cleaned = None.
+Proof.
+  intros H. unfold rel_of.
   replace (Nat.leb (length from) (length cleaned)) with false by (symmetry; apply Nat.leb_gt; lia).
   reflexivity.
 Qed.
-
-Theorem file_from_never_panics from cleaned : walk_panics from cleaned false = false.
-Proof. reflexivity. Qed.
